@@ -7,5 +7,6 @@ import SpoxModel.Props.C07
 #print axioms C07.constant_propagation_exact
 #print axioms C07.fold_correct_partial
 #print axioms C07.fold_correct
+#print axioms C07.generated_overrides_modelled
 #print axioms C07.fold_binding_independent
 #print axioms C07.kept_value_conforms_counterexample
